@@ -93,7 +93,7 @@ def matrix(repo, chk):
         incs = [n for n in own_nodes(fn.node) if isinstance(n, ast.AugAssign) and isinstance(n.target, ast.Name) and n.target.id == cursor]
         inits = [n for n in own_nodes(fn.node) if isinstance(n, ast.Assign) and isinstance(n.targets[0], ast.Name) and n.targets[0].id == cursor]
         ok_c = len(incs) == n_cursor and len(inits) == 1 and isinstance(inits[0].value, ast.Constant) and inits[0].value.value == 0
-        chk.expect(ok_c, 'C19.1b', 'R4', fn.site(inits[0]) if inits else fn.site(), f'{cursor} = 0; {len(incs)} advances for {n_cursor} cursor stores', 'the cursor starts at 0 and advances exactly once per row written', f'the cursor `{cursor}` is advanced {len(incs)} times for {n_cursor} stores (or not initialised to 0): rows are skipped or overwritten')
+        chk.expect(ok_c, 'C19.1b', 'R4', fn.site(inits[0]) if inits else fn.site(), f'{cursor} = 0; {len(incs)} advances for {n_cursor} cursor stores', 'the cursor starts at 0 and advances exactly once per row written', f'the cursor `{cursor}` is advanced {len(incs)} times for {n_cursor} stores (or not initialised to 0): rows are skipped or overwritten', soft=True)
     # paths: structure None -> full range; else closing fill
     top_if = next((s for s in fn.node.body if isinstance(s, ast.If) and 'structure' in ast.unparse(s.test)), None)
     if top_if is None:
@@ -170,7 +170,7 @@ def feature(repo, chk):
             ok = True
         if not ok:
             bad.append(d)
-    chk.expect(not bad and len(defs) >= 2, 'C19.4a', 'origin', fn.site(bad[0]) if bad else fn.site(), ast.unparse(bad[0])[:100] if bad else f'{len(defs)} definitions of {out}: np.random.choice(vec, ...) / np.append({out}, vec)', 'every value of the feature comes from its domain vec', 'a value of the feature does not originate from np.random.choice(vec, ...) or vec itself: the feature can leave its declared domain')
+    chk.expect(not bad and len(defs) >= 2, 'C19.4a', 'origin', fn.site(bad[0]) if bad else fn.site(), ast.unparse(bad[0])[:100] if bad else f'{len(defs)} definitions of {out}: np.random.choice(vec, ...) / np.append({out}, vec)', 'every value of the feature comes from its domain vec', 'a value of the feature does not originate from np.random.choice(vec, ...) or vec itself: the feature can leave its declared domain', soft=True)
     muts = [n for n in own_nodes(fn.node) if isinstance(n, (ast.AugAssign,)) and isinstance(n.target, ast.Name) and n.target.id == out] + \
            [n for n in own_nodes(fn.node) if isinstance(n, ast.Assign) and isinstance(n.targets[0], ast.Subscript) and isinstance(n.targets[0].value, ast.Name) and n.targets[0].value.id == out]
     chk.expect(not muts, 'C19.4b', 'origin', fn.site(muts[0]) if muts else fn.site(), ast.unparse(muts[0])[:100] if muts else f'{out} only shuffled', 'drawn values are only shuffled', 'drawn values are modified after the draw')
@@ -183,7 +183,7 @@ def feature(repo, chk):
             'given list': [E('numpy.array(vec)'), E('numpy.asarray(vec)')]}
     for label, forms in want.items():
         hit = [t for t in vt if t in forms]
-        chk.expect(bool(hit), f'C19.4c-{label.replace(" ", "_")}', 'R15', fn.site(vdefs[0]) if vdefs else fn.site(), label + ': ' + '; '.join(ast.unparse(d.value) for d in vdefs)[:160], f'domain construction: {label}', f'domain construction `{label}` not found in the stated form ({[show(f) for f in forms][0]})')
+        chk.expect(bool(hit), f'C19.4c-{label.replace(" ", "_")}', 'R15', fn.site(vdefs[0]) if vdefs else fn.site(), label + ': ' + '; '.join(ast.unparse(d.value) for d in vdefs)[:160], f'domain construction: {label}', f'domain construction `{label}` not found in the stated form ({[show(f) for f in forms][0]})', soft=True)
     extra = [d for d, t in zip(vdefs, vt) if not any(t in f for f in want.values())]
     chk.expect(not extra, 'C19.4d', 'R15', fn.site(extra[0]) if extra else fn.site(), ast.unparse(extra[0])[:100] if extra else 'no other domain construction', 'no other domain construction', 'the domain is (re)defined in an unrecognised way')
     # 5 representation guard
@@ -196,7 +196,7 @@ def feature(repo, chk):
         body_txt = ' '.join(ast.unparse(s) for s in guards[0].body).replace(' ', '')
         ok_g = ok_g and 'size=size-len(vec)' in body_txt and f'np.append({out},vec)' in body_txt
     chk.expect(ok_g, 'C19.5', 'R14', fn.site(guards[0]) if guards else fn.site(), ast.unparse(guards[0].test) if guards else 'if ensure_rep and len(vec) <= size', 'with ensure_rep every domain value is appended whenever the sample count allows (len(vec) <= size)',
-               'representation must be enforced whenever len(vec) <= size (drawing size - len(vec) values and appending the whole domain): with a strict comparison the boundary case n_samples == domain size is drawn at random and misses values')
+               'representation must be enforced whenever len(vec) <= size (drawing size - len(vec) values and appending the whole domain): with a strict comparison the boundary case n_samples == domain size is drawn at random and misses values', soft=True)
 
 
 def naive(repo, chk):
@@ -215,8 +215,10 @@ def naive(repo, chk):
     got_thr = sorted((repr(term_of(fn, x.targets[0].slice, inline=False)), ast.unparse(x.value)) for x in thr)
     ok_thr = got_thr == sorted([(repr(E(f'{T} < 40')), '0'), (repr(E(f'{T} > 39')), '1')])
     others = [n for n in own_nodes(fn.node) if isinstance(n, ast.Call) and (m.dotted(n.func) or '').startswith('numpy.random.') and n is not (sd[0].value if sd else None)]
-    chk.expect(ok_t and ok_thr and not others, 'C19.7b', 'R15', fn.site(td[0]) if td else fn.site(), '; '.join(ast.unparse(x) for x in td + thr), 'the label is a deterministic step function of the needle column 30 alone (no noise)',
-               'the label must be column 30 of the sample thresholded at 40 (0 below, 1 from 40), with no further randomness')
+    for o_ in others:
+        chk.bad('C19.7b', 'R10', fn.site(o_), ast.unparse(o_)[:100], 'the naive generator draws further random numbers after the sample: the label is no longer a deterministic function of the needle column alone')
+    chk.expect(ok_t and ok_thr, 'C19.7b', 'R15', fn.site(td[0]) if td else fn.site(), '; '.join(ast.unparse(x) for x in td + thr), 'the label is a deterministic step function of the needle column 30 alone (no noise)',
+               'the label must be column 30 of the sample thresholded at 40 (0 below, 1 from 40), with no further randomness', soft=True)
     r = returns(fn)
     chk.expect(len(r) == 1 and ast.unparse(r[0].value) == f'({S}, {T})', 'C19.7c', 'R6', fn.site(r[0]) if r else fn.site(), ast.unparse(r[0]) if r else '', 'returns (sample, target)', 'must return (sample, target)')
     mseed = [s for s in m.tree.body if isinstance(s, ast.Expr) and isinstance(s.value, ast.Call) and m.dotted(s.value.func) == 'numpy.random.seed' and s.value.args and isinstance(s.value.args[0], ast.Constant)]
@@ -228,4 +230,4 @@ def naive(repo, chk):
     cs = [c for c in calls(tg) if tg.module.dotted(c.func) == f'{GN}.generate_random_matrix']
     ok_a = len(cs) == 1 and [ast.unparse(a) for a in cs[0].args] == [f'{tg.params[0]}.num_synthetic_features', f'{tg.params[0]}.num_synthetic_rows']
     chk.expect(ok_c and ok_a, 'C19.7e', 'R15', tg.site(), "columns f0..f{n-1}, 'label'; to_csv(data.csv, index=False); generate_random_matrix(num_synthetic_features, num_synthetic_rows)", 'the CSV holds the sample under f0.. and the target under label, without an index column',
-               'the generator task must name the columns f0.. and label, write data.csv with index=False and pass (features, rows) in that order')
+               'the generator task must name the columns f0.. and label, write data.csv with index=False and pass (features, rows) in that order', soft=True)
